@@ -1,3 +1,4 @@
+import Oidc.Proofs.CodeHandler
 import Oidc.Shapes
 import Oidc.Proofs.SessionHist
 import Oidc.Facts
@@ -100,5 +101,20 @@ theorem text_SessionData_GetEmail_ok : Oidc.Shapes.Text_SessionData_GetEmail := 
 theorem text_SessionData_SetEmail_ok : Oidc.Shapes.Text_SessionData_SetEmail := by unfold Oidc.Shapes.Text_SessionData_SetEmail; rfl
 theorem text_SessionData_GetIncomingPath_ok : Oidc.Shapes.Text_SessionData_GetIncomingPath := by unfold Oidc.Shapes.Text_SessionData_GetIncomingPath; rfl
 theorem text_SessionData_SetIncomingPath_ok : Oidc.Shapes.Text_SessionData_SetIncomingPath := by unfold Oidc.Shapes.Text_SessionData_SetIncomingPath; rfl
+
+/-! ## The same statements about the code itself: the functions below are `Oidc.Generated.Code`, which `tools/go2lean` translates
+    from /repo's source, statement by statement, on every run (meaning of the Go constructs: `Oidc/GoLib.lean`) -/
+open Oidc.Generated Oidc.CodeRefine in
+/-- session.go `splitIntoChunks` as translated: for a positive chunk size the loop ends within `len(s)+1` rounds and yields
+    the model's `splitN` — pieces that concatenate to the text, none empty, none longer than the chunk size -/
+theorem code_splitIntoChunks (s : Str) (n : Int) (hn : 0 < n) (fuel : Nat) (hf : s.length < fuel) :
+    Code.splitIntoChunks fuel s n = some (splitN n.toNat s) :=
+  splitIntoChunks_refines s n hn fuel hf
+
+open Oidc.Generated Oidc.CodeRefine in
+theorem code_splitIntoChunks_joins (s : Str) (n : Int) (hn : 0 < n) :
+    ∃ cs, Code.splitIntoChunks (s.length + 1) s n = some cs ∧ cs.flatten = s ∧ ∀ c ∈ cs, c.length ≤ n.toNat ∧ c ≠ [] :=
+  ⟨splitN n.toNat s, splitIntoChunks_refines s n hn _ (Nat.lt_succ_self _), splitN_flatten n.toNat s (by omega),
+    splitN_piece_le n.toNat s⟩
 
 end Oidc.Props.C07
